@@ -554,6 +554,8 @@ def units(prop, names, bit_aligned=True):
                                     partition=('ALIGN_CASE', ALIGN_CASES), inputs=('d.x', 'd.y')))
                 # thorough: every alignment 0..64 and a spread up to 4096 (a symbolic alignment - `% align` by a symbolic divisor - times out in z3 for
                 # the wider pixel types, so it is not registered: an undecided check may not stand in a registered command)
+                if n.endswith('_ba'):
+                    continue                      # bit-aligned images: the byte-granular extent (`/ 8`) makes the wider alignment cells slow (z3 time-outs under load): the 11 quick alignments only
                 checks.append(Check(c + '_more', 'hz_' + c, engine='Z', timeout=120, tier='thorough', zopts={'jobs': 2}, gi_flags=['--unwind', '6'] if planar else [],
                                     partition=('ALIGN_CASE', [a for a in ALIGN_CASES_THOROUGH if a not in ALIGN_CASES]), inputs=('d.x', 'd.y')))
                 continue
